@@ -389,6 +389,79 @@ fn run_adss_scan(cx: &mut CaseCx, case: &Value) {
   cx.outcome("adss scan");
 }
 
+
+/// adss level, caller-supplied transcripts: under ONE custom transcript the sharings of different (message,
+/// coins) must still have different keys and different polynomials (the secrets must be bound into the
+/// derivation whatever transcript the caller supplies) - otherwise shares of one sharing complete another
+fn run_custom_transcripts(cx: &mut CaseCx, case: &Value) {
+  use strobe_rs::{SecParam, Strobe};
+  let t = case["t"].as_u64().unwrap() as u32;
+  let mk = |which: u64| -> Option<Strobe> {
+    match which {
+      0 => None,
+      1 => {
+        let mut s = Strobe::new(b"adss", SecParam::B128);
+        s.ad(b"context", false);
+        Some(s)
+      }
+      2 => Some(Strobe::new(b"other protocol", SecParam::B128)),
+      _ => {
+        let mut s = Strobe::new(b"adss", SecParam::B128);
+        s.meta_ad(b"x", false);
+        Some(s)
+      }
+    }
+  };
+  let which = case["transcript"].as_u64().unwrap();
+  let mut keys: HashMap<BigUint, String> = HashMap::new();
+  let mut coeffs_seen: HashMap<BigUint, String> = HashMap::new();
+  for i in 0..40u64 {
+    // vary the message only, the coins only, both
+    let (m, r) = match i % 3 {
+      0 => (format!("message-{}", i).into_bytes(), b"fixed coins".to_vec()),
+      1 => (b"fixed message".to_vec(), format!("coins-{}", i).into_bytes()),
+      _ => (format!("message-{}", i).into_bytes(), format!("coins-{}", i).into_bytes()),
+    };
+    let name = format!("(message {:?}, coins {:?})", String::from_utf8_lossy(&m), String::from_utf8_lossy(&r));
+    let mut pts: Vec<(BigUint, BigUint)> = vec![];
+    for k in 0..t as usize + 1 {
+      getrandom::verif::set_group(k as u32 + 1);
+      match guard(|| adss::Commune::new(t, m.clone(), r.clone(), mk(which)).share().map_err(|e| e.to_string())) {
+        Ok(Ok(sh)) => {
+          if let Some(p) = rm::parse_adss(&sh.to_bytes()) {
+            if let Some(y) = p.s.y.first() {
+              pts.push((p.s.x.clone(), y.clone()));
+            }
+          }
+        }
+        _ => {}
+      }
+    }
+    let mut xs: Vec<&BigUint> = pts.iter().map(|p| &p.0).collect();
+    xs.sort();
+    xs.dedup();
+    if pts.len() != t as usize + 1 || xs.len() != pts.len() {
+      continue;
+    }
+    let coeffs = rm::interpolate_coeffs(&pts[..t as usize]);
+    cx.eval();
+    cx.nontrivial(fnv_str(&format!("{}|{}|{}", which, t, i)));
+    let d = || json!({"t": t, "transcript": which, "sharing": name});
+    if let Some(prev) = keys.insert(coeffs[0].clone(), name.clone()) {
+      cx.viol("C02/poly/key-shared-between-sharings", format!("under one caller-supplied transcript the sharings {} and {} have the SAME sharing key (constant term): the key does not depend on the message and the coins, so whoever knows the transcript knows the key and shares of one sharing complete the other", prev, name), d());
+      return;
+    }
+    for c in coeffs.iter().skip(1) {
+      if let Some(prev) = coeffs_seen.insert(c.clone(), name.clone()) {
+        cx.viol("C02/poly/coefficient-repeated", format!("under one caller-supplied transcript a non-constant coefficient of {} also occurs in the polynomial of {}", name, prev), d());
+        return;
+      }
+    }
+    cx.count("transcript_sharings_examined", 1);
+  }
+  cx.outcome(format!("t={} transcript={}", t, which));
+}
+
 /// forged threshold field on sub-threshold collections of A's own shares
 fn run_forged(cx: &mut CaseCx, case: &Value) {
   let t = case["t"].as_u64().unwrap() as u32;
@@ -895,6 +968,21 @@ pub fn spec() -> PropSpec {
         gen: |_| [0u64, 8, 16, 24, 31, 32, 33, 48, 64, 100, 166, 200].iter().map(|l| json!({"ml": l})).collect(),
         run: run_adss_scan,
         min_counts: &[("adss_shares_scanned", 400)],
+      },
+      Check {
+        name: "custom-transcripts",
+        rule: "adss level, t in {2,3}, the default transcript and 3 caller-supplied ones: 40 sharings per transcript that differ in the message only, the coins only, or both: sharing keys (constant terms, model interpolation) pairwise distinct and non-constant coefficients pairwise distinct - the secrets are bound into the derivation whatever transcript the caller supplies",
+        gen: |_| {
+          let mut v = vec![];
+          for t in [2u64, 3] {
+            for w in 0..4u64 {
+              v.push(json!({"t": t, "transcript": w}));
+            }
+          }
+          v
+        },
+        run: run_custom_transcripts,
+        min_counts: &[("transcript_sharings_examined", 300)],
       },
       Check {
         name: "forged-thresholds",
